@@ -20,7 +20,13 @@ RULE = ('random histories of create_entity (0-3 components, automatic or '
         'entities) is compared with a dict-based reference model. '
         'Non-trivial = >=3 mutating ops of >=2 kinds on one entity and at '
         'least one of {replacement, explicit and automatic ids mixed, '
-        'operation on an entity awaiting deletion}.')
+        'operation on an entity awaiting deletion}.'
+        " Rounds 9-13 added: the answer of get() is treated as the caller's"
+        ' own list (emptied/reordered after reading); a query type the'
+        ' classes are only abc-registered with (the three query forms must'
+        ' agree); the table invariants also evaluated from inside'
+        " on_add/on_remove of the game sessions; the repository's own 111"
+        ' tests run under the invariants (vf/suite_monitor.py).')
 ANCHORS = [
     'desper/logic/world.py::World.create_entity',
     'desper/logic/world.py::World.add_component',
